@@ -187,101 +187,76 @@ def split_sections(lines):
     return "ok", secs
 
 
-DEFECTS = ["beta-out-of-range", "beta01-not-inverse", "beta2-asymmetric", "null-column-nonnull",
-           "unused-linked", "unused-repeated", "unused-out-of-range", "vertex-id-out-of-range",
-           "vertex-on-missing-dart"]
-
-
 def analyse(lines):
-    """what a validating loader would say about the text.
-    returns dict(kind='layout'|'reject'|'read', detail=…, defects=[…], expect=…)
-      layout : rejected by the section parser (outside C10's quantifier)
-      reject : the *current* code is expected to answer with a BuilderError (format error)
-      read   : the tokens are readable; `defects` lists the inconsistencies of the content and
-               `expect` is the map the text denotes (n, rows incl. column 0 as written, flags, vertices)
-    For 'reject' the defects found before the format error are listed too (a panic caused by one
-    of them may precede the error)."""
+    """what the (validating, fix 7170072) loader must answer, in the order of its checks.
+    returns dict(kind='layout'|'err'|'ok', detail=…, expect=…)
+      layout : rejected by the section parser (outside C10's quantifier); detail = variant [code]
+      err    : BuilderError of build(); detail = 'Variant code'
+      ok     : expect = the map the text denotes (n, rows incl. the null-dart column, flags, vertices:
+               last line wins)"""
     st, secs = split_sections(lines)
     if st == "layout":
-        return {"kind": "layout", "detail": secs, "defects": [], "expect": None}
+        return {"kind": "layout", "detail": secs, "expect": None}
+
+    def err(d):
+        return {"kind": "err", "detail": d, "expect": None}
+
     parts = [t for l in secs["meta"] for t in l]
     dim, n = parse_u(parts[1], USIZE), parse_u(parts[2], USIZE)
     if dim != 2:
-        return {"kind": "reject", "detail": "BadMetaData 3", "defects": [], "expect": None}
+        return err("BadMetaData 3")
     bl = secs["betas"]
     if len(bl) != 3:
-        return {"kind": "reject", "detail": "InconsistentData 0", "defects": [], "expect": None}
+        return err("InconsistentData 0")
     for i in range(3):
         if len(bl[i]) != n + 1:
-            return {"kind": "reject", "detail": f"InconsistentData {i + 1}", "defects": [], "expect": None}
-    defects = []
+            return err(f"InconsistentData {i + 1}")
+    nd = n + 1
     rows = [[parse_u(t, U32) for t in bl[i]] for i in range(3)]
-    # the multizip loop parses dart by dart, b0 b1 b2
-    for d in range(1, n + 1):
+    # every image is parsed first, null-dart column included, dart by dart: b0, b1, b2
+    for d in range(nd):
         for i in range(3):
             if rows[i][d] is None:
-                return {"kind": "reject", "detail": f"BadValue {i}", "defects": [], "expect": None}
-    nd = n + 1
+                return err(f"BadValue {i}")
     if any(rows[i][0] != 0 for i in range(3)):
-        defects.append("null-column-nonnull")
-    stored = [[0] + rows[i][1:] for i in range(3)]
-    if any(v >= nd for i in range(3) for v in stored[i]):
-        defects.append("beta-out-of-range")
-    g = lambda i, d: stored[i][d] if d < nd else 0  # noqa: E731
-    if any((g(1, d) != 0 and g(0, g(1, d)) != d) or (g(0, d) != 0 and g(1, g(0, d)) != d) for d in range(nd)):
-        defects.append("beta01-not-inverse")
-    if any(g(2, d) != 0 and (g(2, g(2, d)) != d or g(2, d) == d) for d in range(nd)):
-        defects.append("beta2-asymmetric")
+        return err("InconsistentData 4")
+    if any(v >= nd for i in range(3) for v in rows[i]):
+        return err("InconsistentData 5")
+    for d in range(1, nd):
+        b0d, b1d, b2d = rows[0][d], rows[1][d], rows[2][d]
+        if (b1d != 0 and rows[0][b1d] != d) or (b0d != 0 and rows[1][b0d] != d):
+            return err("InconsistentData 6")
+        if b2d != 0 and (rows[2][b2d] != d or b2d == d):
+            return err("InconsistentData 7")
     unused = [0] * nd
-    reject = None
     for t in [t for l in secs.get("unused", []) for t in l]:
         d = parse_u(t, U32)
         if d is None:
-            reject = "BadValue 3"
-            break
-        if d >= nd:
-            defects.append("unused-out-of-range")
-            continue
-        if any(stored[i][d] != 0 for i in range(3)):
-            defects.append("unused-linked")
-        if unused[d]:
-            defects.append("unused-repeated")
+            return err("BadValue 3")
+        if d == 0 or d >= nd or any(rows[i][d] != 0 for i in range(3)) or unused[d]:
+            return err("InconsistentData 8")
         unused[d] = 1
     verts = {}
-    if reject is None:
-        for l in secs.get("vertices", []):
-            vid = parse_u(l[0], U32)
-            if vid is None:
-                reject = "BadValue 5"
-                break
-            if len(l) < 2:
-                reject = "BadValue 4"
-                break
-            x = parse_coord(l[1])
-            if x is None:
-                reject = "BadValue 6"
-                break
-            if len(l) < 3:
-                reject = "BadValue 4"
-                break
-            y = parse_coord(l[2])
-            if y is None:
-                reject = "BadValue 7"
-                break
-            if len(l) > 3:
-                reject = "BadValue 4"
-                break
-            if vid >= nd:
-                defects.append("vertex-id-out-of-range")
-                continue
-            if vid == 0 or unused[vid]:
-                defects.append("vertex-on-missing-dart")
-            verts[vid] = (x, y)
-    defects = [d for d in DEFECTS if d in defects]
-    if reject is not None:
-        return {"kind": "reject", "detail": reject, "defects": defects, "expect": None}
-    return {"kind": "read", "detail": "", "defects": defects,
-            "expect": {"n": nd, "rows": rows, "unused": unused, "verts": verts}}
+    for l in secs.get("vertices", []):
+        vid = parse_u(l[0], U32)
+        if vid is None:
+            return err("BadValue 5")
+        if len(l) < 2:
+            return err("BadValue 4")
+        x = parse_coord(l[1])
+        if x is None:
+            return err("BadValue 6")
+        if len(l) < 3:
+            return err("BadValue 4")
+        y = parse_coord(l[2])
+        if y is None:
+            return err("BadValue 7")
+        if len(l) > 3:
+            return err("BadValue 4")
+        if vid == 0 or vid >= nd or unused[vid]:
+            return err("InconsistentData 9")
+        verts[vid] = (x, y)
+    return {"kind": "ok", "detail": "", "expect": {"n": nd, "rows": rows, "unused": unused, "verts": verts}}
 
 
 # ---------------------------------------------------------------------------------------------
